@@ -264,6 +264,14 @@ def run_case(case, env, res):
         refresh_queries()
         str(BlockImage(Image.new("RGB", (1, 2), (9, 9, 9)), width=1, height=1))
         term_image.disable_queries()
+    if case.get("abort_at"):
+        # a render of another picture interrupted (Ctrl-C) somewhere inside the style's
+        # render function comes first: nothing of it may show in this one
+        from .c01 import aborted_render
+
+        other = BlockImage(Image.new("RGBA", (5, 6), (200, 30, 30, 255)), width=5, height=3)
+        if aborted_render(other, case["abort_at"]):
+            res.count("renders preceded by an interrupted render")
     try:
         out = _render(case, image, alpha_arg, alpha_mode, thr, how, W, res)
     finally:
@@ -364,6 +372,7 @@ def gen(rnd):
         pattern=rnd.choice([None, "runs", "runs", "noise", "stripes", "alpha-edge", "uniform"]),
         use_termbg=rnd.random() < 0.5,
         partial=rnd.random() < 0.12,
+        abort_at=rnd.randint(20, 120) if rnd.random() < 0.1 else None,
     )
     if alpha_mode == "thr":
         case["thr"] = rnd.choice([0.0, 40 / 255, 40 / 255, 0.5, 0.999, 0.1569, 0.1568, round(rnd.random() * 0.999, 6)])
